@@ -14,3 +14,8 @@ inductive Eff where
   deriving DecidableEq, Repr, Inhabited
 
 end IceModel
+
+namespace IceModel
+/-- emit effect `e`, then continue with a computation that yields effects and a result. -/
+def Eff.pre {α : Type} (e : Eff) (x : List Eff × α) : List Eff × α := (e :: x.1, x.2)
+end IceModel
